@@ -73,6 +73,9 @@ structure Inv (text : Bool) (list : List Sym) (body : List Nat) (p0 : Nat) (c0 :
   cw : s.cw = c0 ++ latchOf text :: packTriples ((Wb text body p0 s.pos).take (3 * m))
   last : p0 < s.pos → lastCh = body.getD (s.pos - 1) 0
 
+/-- no latch to a non-ASCII mode is planned for the last four characters -/
+def PlanOK (plan : List (Nat × EMode)) : Prop := ∀ e ∈ plan, e.2 ≠ .ascii → e.1 = 0 ∨ e.1 > 4
+
 /-- a pending latch is consistent with the mode -/
 def Pending (s : St) : Prop :=
   (s.mode = .ascii ∧ s.newMode = none) ∨ (∃ l, s.mode.latch = some l ∧ s.newMode = some l)
@@ -85,7 +88,7 @@ structure End (text : Bool) (list : List Sym) (body : List Nat) (p0 : Nat) (c0 :
     s'.cw = c0 ++ latchOf text :: packTriples V ++ (if un then [254] else []) ∧ s'.pos = p ∧ s'.input = body ∧
     s'.list = list ∧
     ((s'.mode = .ascii ∧ s'.plan = [(0, .ascii)] ∧ s'.newMode = none) ∨
-     (un = true ∧ s'.hasMore = true ∧ Pending s') ∨ (p = body.length ∧ un = false)) ∧
+     (un = true ∧ s'.hasMore = true ∧ Pending s' ∧ PlanOK s'.plan) ∨ (p = body.length ∧ un = false)) ∧
     (un = false → asciiSize (body.drop p) ≤ 1 ∧
       ∃ S, firstBigEnough list (s'.cw.length + asciiSize (body.drop p)) = some S ∧
         dataCw S = s'.cw.length + asciiSize (body.drop p))
@@ -311,7 +314,7 @@ theorem handleEnd_more (text : Bool) (list : List Sym) (body : List Nat) (hb : B
     (hin : s.input = s0.input) (hpos : s.pos = s0.pos) (hcw : s.cw = s0.cw) (hli : s.list = s0.list)
     (hmore : s.hasMore = true)
     (hpend : ¬ (s.charsLeft = 2 ∧ twoDigitsComing s.rest = true) → Pending s)
-    (hlate : s.charsLeft = 2 → s.newMode = none)
+    (hlate : s.charsLeft = 2 → s.newMode = none) (hplS : PlanOK s.plan)
     (h : c40HandleEnd s lastCh buf = .ok s') : End text list body p0 c0 s' := by
   have hW : Wb text body p0 s0.pos = (Wb text body p0 s0.pos).take (3 * m) ++ buf := by
     rw [inv.bufEq, List.take_append_drop]
@@ -436,13 +439,10 @@ theorem handleEnd_more (text : Bool) (list : List Sym) (body : List Nat) (hb : B
     have hp := hpend htwo
     refine ⟨V, n, s0.pos, true, stf, hVl, hVlt', hdec, inv.base, inv.le, by simp [St.push, hcw1],
       by simp [St.push, hp1, hpos], by simp [St.push, hi1, hin, inv.input], by simp [St.push, hl1, hli, inv.list],
-      Or.inr (Or.inl ⟨rfl, by simp only [St.hasMore, St.push, hp1, hi1]; exact hmore, ?_⟩), by simp⟩
+      Or.inr (Or.inl ⟨rfl, by simp only [St.hasMore, St.push, hp1, hi1]; exact hmore, ?_, by simp only [St.push, hpl1]; exact hplS⟩), by simp⟩
     unfold Pending at hp ⊢
     simp only [St.push, hm1, hn1]
     exact hp
-
-/-- no latch to a non-ASCII mode is planned for the last four characters -/
-def PlanOK (plan : List (Nat × EMode)) : Prop := ∀ e ∈ plan, e.2 ≠ .ascii → e.1 = 0 ∨ e.1 > 4
 
 theorem maybeSwitch_at (s s1 : St) (h : s.maybeSwitch = .ok (true, s1)) : (s.charsLeft, s1.mode) ∈ s.plan := by
   unfold St.maybeSwitch at h
@@ -601,11 +601,11 @@ theorem c40Loop_gen (text : Bool) (list : List Sym) (body : List Nat) (hb : Byte
             cases bsw with
             | true =>
               simp only [] at h
-              obtain ⟨hP, hL, _⟩ := switched_ok s2 s3 inv'.newMode hplan2 hm
+              obtain ⟨hP, hL, hPl3⟩ := switched_ok s2 s3 inv'.newMode hplan2 hm
               obtain ⟨_, t2, _, _⟩ := m6 rfl
               have hmore3 : s3.hasMore = true := by simpa [St.hasMore, m1.1, m2] using t2
               exact handleEnd_more text list body hb p0 c0 s2 s3 s' _ body[s.pos] (m + k) inv' m1.1 m2 m3 m1.2 hmore3
-                (fun _ => hP) (fun h2 => hL (by omega)) h
+                (fun _ => hP) (fun h2 => hL (by omega)) hPl3 h
             | false =>
               simp only [] at h
               obtain ⟨f1, f2⟩ := m5 rfl
@@ -644,7 +644,7 @@ theorem c40Loop_gen (text : Bool) (list : List Sym) (body : List Nat) (hb : Byte
                 simp only [St.rest, inv.input]
                 rw [List.drop_eq_getElem_cons hlt, hr]
               rw [this]
-              simp [twoDigitsComing, hd1, hd2]⟩ hn2) (fun _ => inv.newMode) h
+              simp [twoDigitsComing, hd1, hd2]⟩ hn2) (fun _ => inv.newMode) hplan h
         · rw [if_neg hc] at h
           exact normal h
       · simp only [Bool.and_false, Bool.false_eq_true, ↓reduceIte] at h
